@@ -23,7 +23,8 @@ theorem WB.of_bool {P : Program} (h : P.wellBehaved = true) : WB P := by
 
 /-- the program counter is at a call that acts on / for the lock file -/
 def Pc.needsLock : Pc → Bool
-  | .pre _ _ _ => true | .replace => true | .rmClose _ => true | .rmAbort => true
+  | .pre _ _ _ => true | .replace => true | .fcClose _ => true | .rmClose _ => true
+  | .fcAbort => true | .rmAbort => true
   | _ => false
 
 /-! ## the helpers only touch control fields -/
@@ -35,59 +36,57 @@ structure Ghost (a b : Actor) : Prop where
   written : b.written = a.written
   committed : b.committed = a.committed
   rmFailed : b.rmFailed = a.rmFailed
+  fcFailed : b.fcFailed = a.fcFailed
   fsyncOn : b.fsyncOn = a.fsyncOn
   permOn : b.permOn = a.permOn
   hW : b.hW = a.hW
   hC : b.hC = a.hC
 
-theorem Ghost.rfl' (a : Actor) : Ghost a a := ⟨rfl, rfl, rfl, rfl, rfl, rfl, rfl, rfl, rfl⟩
+/-- the two actors agree on every field `Ghost` talks about, by unfolding -/
+macro "ghost_rfl" : tactic => `(tactic| exact ⟨rfl, rfl, rfl, rfl, rfl, rfl, rfl, rfl, rfl, rfl⟩)
 
 theorem Ghost.trans {a b c : Actor} (h1 : Ghost a b) (h2 : Ghost b c) : Ghost a c :=
   ⟨h2.owns.trans h1.owns, h2.opened.trans h1.opened, h2.written.trans h1.written,
-   h2.committed.trans h1.committed, h2.rmFailed.trans h1.rmFailed, h2.fsyncOn.trans h1.fsyncOn,
-   h2.permOn.trans h1.permOn, h2.hW.trans h1.hW, h2.hC.trans h1.hC⟩
+   h2.committed.trans h1.committed, h2.rmFailed.trans h1.rmFailed, h2.fcFailed.trans h1.fcFailed,
+   h2.fsyncOn.trans h1.fsyncOn, h2.permOn.trans h1.permOn, h2.hW.trans h1.hW, h2.hC.trans h1.hC⟩
 
 /-- same as `trans`, second step first (so that elaboration knows the middle actor) -/
 theorem Ghost.after {a b c : Actor} (h2 : Ghost b c) (h1 : Ghost a b) : Ghost a c := h1.trans h2
 
 theorem enterClose_ghost (a : Actor) (l : List (PreCall × Bool)) : Ghost a (enterClose a l) := by
   induction l generalizing a with
-  | nil => exact ⟨rfl, rfl, rfl, rfl, rfl, rfl, rfl, rfl, rfl⟩
+  | nil => ghost_rfl
   | cons p rest ih =>
     obtain ⟨c, t⟩ := p
     cases c <;> simp only [enterClose]
-    · exact ⟨rfl, rfl, rfl, rfl, rfl, rfl, rfl, rfl, rfl⟩
-    · split
-      · exact ⟨rfl, rfl, rfl, rfl, rfl, rfl, rfl, rfl, rfl⟩
-      · exact ih a
-    · exact Ghost.after (ih { a with fopen := false }) ⟨rfl, rfl, rfl, rfl, rfl, rfl, rfl, rfl, rfl⟩
-    · split
-      · exact ⟨rfl, rfl, rfl, rfl, rfl, rfl, rfl, rfl, rfl⟩
-      · exact ih a
-    · split
-      · exact ⟨rfl, rfl, rfl, rfl, rfl, rfl, rfl, rfl, rfl⟩
+    · ghost_rfl
+    all_goals
+      split
+      · ghost_rfl
       · exact ih a
 
 theorem settle_ghost (P : Program) (a : Actor) (l : List Op) : Ghost a (settle P a l) := by
   induction l generalizing a with
-  | nil => exact ⟨rfl, rfl, rfl, rfl, rfl, rfl, rfl, rfl, rfl⟩
+  | nil => ghost_rfl
   | cons o rest ih =>
     cases o <;> simp only [settle]
-    · exact ⟨rfl, rfl, rfl, rfl, rfl, rfl, rfl, rfl, rfl⟩
+    · ghost_rfl
     · split
       · exact ih a
-      · exact Ghost.after (enterClose_ghost _ _) ⟨rfl, rfl, rfl, rfl, rfl, rfl, rfl, rfl, rfl⟩
+      · exact Ghost.after (enterClose_ghost _ _) (by ghost_rfl)
     · split
       · exact ih a
       · split
-        · exact ⟨rfl, rfl, rfl, rfl, rfl, rfl, rfl, rfl, rfl⟩
-        · exact Ghost.after (ih _) ⟨rfl, rfl, rfl, rfl, rfl, rfl, rfl, rfl, rfl⟩
+        · ghost_rfl
+        · split
+          · ghost_rfl
+          · exact Ghost.after (ih _) (by ghost_rfl)
 
 theorem raise_ghost (P : Program) (a : Actor) (h : List Op) : Ghost a (raise P a h) := by
   unfold raise
   split
-  · exact ⟨rfl, rfl, rfl, rfl, rfl, rfl, rfl, rfl, rfl⟩
-  · exact Ghost.after (settle_ghost _ _ _) ⟨rfl, rfl, rfl, rfl, rfl, rfl, rfl, rfl, rfl⟩
+  · ghost_rfl
+  · exact Ghost.after (settle_ghost _ _ _) (by ghost_rfl)
 
 theorem afterClose_ghost (P : Program) (a : Actor) (p : Bool) : Ghost a (afterClose P a p) := by
   unfold afterClose
@@ -95,20 +94,32 @@ theorem afterClose_ghost (P : Program) (a : Actor) (p : Bool) : Ghost a (afterCl
   · exact raise_ghost _ _ _
   · exact settle_ghost _ _ _
 
+theorem unlinkInClose_ghost (P : Program) (a : Actor) (p : Bool) :
+    Ghost a (unlinkInClose P a p) := by
+  unfold unlinkInClose
+  split
+  · ghost_rfl
+  · exact Ghost.after (afterClose_ghost _ _ _) (by ghost_rfl)
+
 theorem abortInClose_ghost (P : Program) (a : Actor) (p : Bool) : Ghost a (abortInClose P a p) := by
   unfold abortInClose
   split
   · exact afterClose_ghost _ _ _
   · split
-    · exact ⟨rfl, rfl, rfl, rfl, rfl, rfl, rfl, rfl, rfl⟩
-    · exact Ghost.after (afterClose_ghost _ _ _) ⟨rfl, rfl, rfl, rfl, rfl, rfl, rfl, rfl, rfl⟩
+    · ghost_rfl
+    · exact unlinkInClose_ghost _ _ _
+
+theorem unlinkInAbort_ghost (P : Program) (a : Actor) : Ghost a (unlinkInAbort P a) := by
+  unfold unlinkInAbort
+  split
+  · ghost_rfl
+  · exact Ghost.after (settle_ghost _ _ _) (by ghost_rfl)
 
 theorem preFail_ghost (P : Program) (a : Actor) (t : Bool) : Ghost a (preFail P a t) := by
   unfold preFail
   split
   · exact abortInClose_ghost _ _ _
   · exact raise_ghost _ _ _
-
 
 /-! ## the per-actor invariant -/
 
@@ -122,9 +133,11 @@ structure Core (a : Actor) : Prop where
 /-- facts tied to the program counter -/
 def PcOk (a : Actor) : Prop :=
   match a.pc with
-  | .pre _ _ rest => a.owns = true ∧ (a.fopen = true → hasFclose rest = true)
+  | .pre c _ rest => a.owns = true ∧ (a.fopen = true → c = .fclose ∨ hasFclose rest = true)
   | .replace => a.owns = true ∧ a.fopen = false
+  | .fcClose _ => a.owns = true
   | .rmClose _ => a.owns = true ∧ a.fopen = false
+  | .fcAbort => a.owns = true
   | .rmAbort => a.owns = true ∧ a.fopen = false
   | _ => True
 
@@ -140,6 +153,23 @@ def LInv (a : Actor) : Prop := NoHandle a ∨ Run a
 theorem LInv.init (f p : Bool) (b hW hC : List Op) : LInv (Actor.init f p b hW hC) :=
   Or.inl ⟨rfl, rfl, rfl, rfl, rfl, Or.inl rfl⟩
 
+/-- `Core` only looks at `opened`, `owns`, `closed`, `fopen`, `committed`, `written` -/
+theorem Core.congr {a b : Actor} (h : Core a) (h1 : b.opened = a.opened) (h2 : b.owns = a.owns)
+    (h3 : b.closed = a.closed) (h4 : b.fopen = a.fopen) (h5 : b.committed = a.committed)
+    (h6 : b.written = a.written) : Core b :=
+  ⟨h1.trans h.opened, by rw [h2, h3]; exact h.owns_eq, fun hf => by rw [h2]; exact h.fopen_owns (h4 ▸ hf),
+   fun c hc => by rw [h6, h4]; exact h.committed c (h5 ▸ hc)⟩
+
+/-- closing the file object keeps `Core` -/
+theorem Core.fclose {a b : Actor} (h : Core a) (h1 : b.opened = a.opened) (h2 : b.owns = a.owns)
+    (h3 : b.closed = a.closed) (h4 : b.fopen = false) (h5 : b.committed = a.committed)
+    (h6 : b.written = a.written) : Core b :=
+  ⟨h1.trans h.opened, by rw [h2, h3]; exact h.owns_eq, fun hf => by rw [h4] at hf; simp at hf,
+   fun c hc => by rw [h6]; exact ⟨(h.committed c (h5 ▸ hc)).1, h4⟩⟩
+
+theorem Core.owns_of_not_closed {a : Actor} (h : Core a) (hc : a.closed = false) : a.owns = true := by
+  rw [h.owns_eq, hc]; rfl
+
 theorem enterClose_run {a : Actor} (l : List (PreCall × Bool)) (h : Core a) (ho : a.owns = true)
     (hf : a.fopen = true → hasFclose l = true) : Run (enterClose a l) := by
   induction l generalizing a with
@@ -148,7 +178,7 @@ theorem enterClose_run {a : Actor} (l : List (PreCall × Bool)) (h : Core a) (ho
       cases hfo : a.fopen with
       | false => rfl
       | true => simp [hasFclose] at hf; exact absurd hfo (by simp [hf])
-    exact ⟨⟨h.opened, h.owns_eq, h.fopen_owns, h.committed⟩, ⟨ho, this⟩, by simp [enterClose]⟩
+    exact ⟨h.congr rfl rfl rfl rfl rfl rfl, ⟨ho, this⟩, by simp [enterClose]⟩
   | cons p rest ih =>
     obtain ⟨c, t⟩ := p
     have hf' : a.fopen = true → c ≠ .fclose → hasFclose rest = true := by
@@ -159,54 +189,56 @@ theorem enterClose_run {a : Actor} (l : List (PreCall × Bool)) (h : Core a) (ho
       · exact absurd h3 h2
       · exact h3
     cases c <;> simp only [enterClose]
-    · exact ⟨⟨h.opened, h.owns_eq, h.fopen_owns, h.committed⟩,
-        ⟨ho, fun h1 => hf' h1 (by simp)⟩, by simp⟩
+    · exact ⟨h.congr rfl rfl rfl rfl rfl rfl,
+        ⟨ho, fun h1 => Or.inr (hf' h1 (by simp))⟩, by simp⟩
     · split
-      · exact ⟨⟨h.opened, h.owns_eq, h.fopen_owns, h.committed⟩,
-          ⟨ho, fun h1 => hf' h1 (by simp)⟩, by simp⟩
-      · exact ih h ho (fun h1 => hf' h1 (by simp))
-    · exact ih (a := { a with fopen := false })
-        ⟨h.opened, h.owns_eq, fun h1 => by simp at h1, fun c hc => ⟨(h.committed c hc).1, rfl⟩⟩
-        ho (fun h1 => by simp at h1)
-    · split
-      · exact ⟨⟨h.opened, h.owns_eq, h.fopen_owns, h.committed⟩,
-          ⟨ho, fun h1 => hf' h1 (by simp)⟩, by simp⟩
+      · exact ⟨h.congr rfl rfl rfl rfl rfl rfl,
+          ⟨ho, fun h1 => Or.inr (hf' h1 (by simp))⟩, by simp⟩
       · exact ih h ho (fun h1 => hf' h1 (by simp))
     · split
-      · exact ⟨⟨h.opened, h.owns_eq, h.fopen_owns, h.committed⟩,
-          ⟨ho, fun h1 => hf' h1 (by simp)⟩, by simp⟩
+      · exact ⟨h.congr rfl rfl rfl rfl rfl rfl, ⟨ho, fun _ => Or.inl rfl⟩, by simp⟩
+      · rename_i hno
+        exact ih h ho (fun h1 => absurd h1 hno)
+    · split
+      · exact ⟨h.congr rfl rfl rfl rfl rfl rfl,
+          ⟨ho, fun h1 => Or.inr (hf' h1 (by simp))⟩, by simp⟩
+      · exact ih h ho (fun h1 => hf' h1 (by simp))
+    · split
+      · exact ⟨h.congr rfl rfl rfl rfl rfl rfl,
+          ⟨ho, fun h1 => Or.inr (hf' h1 (by simp))⟩, by simp⟩
       · exact ih h ho (fun h1 => hf' h1 (by simp))
 
 theorem settle_run {P : Program} (hP : WB P) {a : Actor} (l : List Op) (h : Core a) :
     Run (settle P a l) := by
   induction l generalizing a with
-  | nil => exact ⟨⟨h.opened, h.owns_eq, h.fopen_owns, h.committed⟩, trivial, by simp [settle]⟩
+  | nil => exact ⟨h.congr rfl rfl rfl rfl rfl rfl, trivial, by simp [settle]⟩
   | cons o rest ih =>
     cases o <;> simp only [settle]
-    · exact ⟨⟨h.opened, h.owns_eq, h.fopen_owns, h.committed⟩, trivial, by simp⟩
+    · exact ⟨h.congr rfl rfl rfl rfl rfl rfl, trivial, by simp⟩
     · split
       · exact ih h
       · rename_i hg
         have hc : a.closed = false := by simpa [hP.guardClose] using hg
-        have ho : a.owns = true := by rw [h.owns_eq, hc]; rfl
         exact enterClose_run _ (a := { a with todo := rest })
-          ⟨h.opened, h.owns_eq, h.fopen_owns, h.committed⟩ ho (fun _ => hP.fclose)
+          (h.congr rfl rfl rfl rfl rfl rfl) (h.owns_of_not_closed hc) (fun _ => hP.fclose)
     · split
       · exact ih h
       · rename_i hg
         have hc : a.closed = false := by simpa [hP.guardAbort] using hg
-        have ho : a.owns = true := by rw [h.owns_eq, hc]; rfl
-        simp only [hP.abortRemoves, if_true]
-        exact ⟨⟨h.opened, h.owns_eq, fun h1 => by simp at h1,
-          fun c hc => ⟨(h.committed c hc).1, rfl⟩⟩, ⟨ho, rfl⟩, by simp⟩
+        have ho : a.owns = true := h.owns_of_not_closed hc
+        split
+        · exact ⟨h.congr rfl rfl rfl rfl rfl rfl, ho, by simp⟩
+        · rename_i hfo
+          have hfo' : a.fopen = false := by simpa using hfo
+          simp only [hP.abortRemoves, if_true]
+          exact ⟨h.congr rfl rfl rfl rfl rfl rfl, ⟨ho, hfo'⟩, by simp⟩
 
 theorem raise_run {P : Program} (hP : WB P) {a : Actor} (hd : List Op) (h : Core a) :
     Run (raise P a hd) := by
   unfold raise
   split
-  · exact ⟨⟨h.opened, h.owns_eq, h.fopen_owns, h.committed⟩, trivial, by simp⟩
-  · exact settle_run hP _ (a := { a with inHandler := true })
-      ⟨h.opened, h.owns_eq, h.fopen_owns, h.committed⟩
+  · exact ⟨h.congr rfl rfl rfl rfl rfl rfl, trivial, by simp⟩
+  · exact settle_run hP _ (a := { a with inHandler := true }) (h.congr rfl rfl rfl rfl rfl rfl)
 
 theorem afterClose_run {P : Program} (hP : WB P) {a : Actor} (p : Bool) (h : Core a) :
     Run (afterClose P a p) := by
@@ -215,6 +247,12 @@ theorem afterClose_run {P : Program} (hP : WB P) {a : Actor} (p : Bool) (h : Cor
   · exact raise_run hP _ h
   · exact settle_run hP _ h
 
+theorem unlinkInClose_run {P : Program} (hP : WB P) {a : Actor} (p : Bool) (h : Core a)
+    (ho : a.owns = true) (hf : a.fopen = false) : Run (unlinkInClose P a p) := by
+  unfold unlinkInClose
+  simp only [hP.abortRemoves, if_true]
+  exact ⟨h.congr rfl rfl rfl rfl rfl rfl, ⟨ho, hf⟩, by simp⟩
+
 theorem abortInClose_run {P : Program} (hP : WB P) {a : Actor} (p : Bool) (h : Core a) :
     Run (abortInClose P a p) := by
   unfold abortInClose
@@ -222,10 +260,17 @@ theorem abortInClose_run {P : Program} (hP : WB P) {a : Actor} (p : Bool) (h : C
   · exact afterClose_run hP _ h
   · rename_i hg
     have hc : a.closed = false := by simpa [hP.guardAbort] using hg
-    have ho : a.owns = true := by rw [h.owns_eq, hc]; rfl
-    simp only [hP.abortRemoves, if_true]
-    exact ⟨⟨h.opened, h.owns_eq, fun h1 => by simp at h1,
-      fun c hc => ⟨(h.committed c hc).1, rfl⟩⟩, ⟨ho, rfl⟩, by simp⟩
+    have ho : a.owns = true := h.owns_of_not_closed hc
+    split
+    · exact ⟨h.congr rfl rfl rfl rfl rfl rfl, ho, by simp⟩
+    · rename_i hfo
+      exact unlinkInClose_run hP _ h ho (by simpa using hfo)
+
+theorem unlinkInAbort_run {P : Program} (hP : WB P) {a : Actor} (h : Core a)
+    (ho : a.owns = true) (hf : a.fopen = false) : Run (unlinkInAbort P a) := by
+  unfold unlinkInAbort
+  simp only [hP.abortRemoves, if_true]
+  exact ⟨h.congr rfl rfl rfl rfl rfl rfl, ⟨ho, hf⟩, by simp⟩
 
 theorem preFail_run {P : Program} (hP : WB P) {a : Actor} (t : Bool) (h : Core a) :
     Run (preFail P a t) := by
@@ -233,7 +278,6 @@ theorem preFail_run {P : Program} (hP : WB P) {a : Actor} (t : Bool) (h : Core a
   split
   · exact abortInClose_run hP _ h
   · exact raise_run hP _ h
-
 
 theorem Run.opened {a : Actor} (h : Run a) : a.opened = true := h.1.opened
 
@@ -250,18 +294,37 @@ theorem LInv.noHandle_of_start {a : Actor} (h : LInv a) (h1 : a.pc = .start) : N
   · exact h
   · exact absurd h1 h.2.2
 
-/-- the per-actor invariant is preserved by every system call of the actor, whatever the
-directory looks like and whether or not the call is made to fail -/
+/-- what `PcOk` says at each program counter, with the `Run` it comes from -/
+theorem LInv.at_pre {a : Actor} (h : LInv a) {c t rest} (hpc : a.pc = .pre c t rest) :
+    Run a ∧ a.owns = true ∧ (a.fopen = true → c = .fclose ∨ hasFclose rest = true) := by
+  have hr := h.run_of_pc (by simp [hpc]) (by simp [hpc])
+  have := hr.2.1; unfold PcOk at this; rw [hpc] at this; exact ⟨hr, this⟩
+
+theorem LInv.at_closed_file {a : Actor} (h : LInv a)
+    (hpc : a.pc = .replace ∨ (∃ p, a.pc = .rmClose p) ∨ a.pc = .rmAbort) :
+    Run a ∧ a.owns = true ∧ a.fopen = false := by
+  have hr := h.run_of_pc (by rcases hpc with e | ⟨_, e⟩ | e <;> simp [e])
+    (by rcases hpc with e | ⟨_, e⟩ | e <;> simp [e])
+  have := hr.2.1; unfold PcOk at this
+  rcases hpc with e | ⟨_, e⟩ | e <;> rw [e] at this <;> exact ⟨hr, this⟩
+
+theorem LInv.at_fc {a : Actor} (h : LInv a) (hpc : (∃ p, a.pc = .fcClose p) ∨ a.pc = .fcAbort) :
+    Run a ∧ a.owns = true := by
+  have hr := h.run_of_pc (by rcases hpc with ⟨_, e⟩ | e <;> simp [e])
+    (by rcases hpc with ⟨_, e⟩ | e <;> simp [e])
+  have := hr.2.1; unfold PcOk at this
+  rcases hpc with ⟨_, e⟩ | e <;> rw [e] at this <;> exact ⟨hr, this⟩
+
+/-- the per-actor invariant is preserved by every call of the actor, whatever the directory looks
+like and whether or not the call is made to fail -/
 theorem actorStep_LInv {P : Program} (hP : WB P) {a : Actor} (lt f : Bool) (h : LInv a) :
     LInv (actorStep P a lt f).1 := by
-  unfold actorStep
-  split
-  · -- done
-    exact h
-  · -- start
-    rename_i hpc
+  cases hpc : a.pc with
+  | done => simp only [actorStep, hpc]; exact h
+  | start =>
     have hn := h.noHandle_of_start hpc
     obtain ⟨h1, h2, h3, h4, h5, _⟩ := hn
+    simp only [actorStep, hpc]
     split
     · exact Or.inl ⟨h1, h2, h3, h4, h5, Or.inr rfl⟩
     · split
@@ -269,9 +332,9 @@ theorem actorStep_LInv {P : Program} (hP : WB P) {a : Actor} (lt f : Bool) (h : 
       · refine Or.inr (settle_run hP _ ⟨rfl, ?_, fun _ => rfl, ?_⟩)
         · simp [h3]
         · intro c hc; simp [h5] at hc
-  · -- wr
-    rename_i d hpc
+  | wr d =>
     have hr := h.run_of_pc (by simp [hpc]) (by simp [hpc])
+    simp only [actorStep, hpc]
     split
     · exact Or.inr (raise_run hP _ hr.1)
     · split
@@ -282,68 +345,89 @@ theorem actorStep_LInv {P : Program} (hP : WB P) {a : Actor} (lt f : Bool) (h : 
         intro c hc
         have := (hr.1.committed c hc).2
         rw [hfo'] at this; exact absurd this (by simp)
-  · -- pre
-    rename_i c t rest hpc
-    have hr := h.run_of_pc (by simp [hpc]) (by simp [hpc])
-    have hpk : a.owns = true ∧ (a.fopen = true → hasFclose rest = true) := by
-      have := hr.2.1; unfold PcOk at this; rw [hpc] at this; exact this
+  | pre c t rest =>
+    obtain ⟨hr, ho, hfc⟩ := h.at_pre hpc
+    have hcl : Core { a with fopen := false } := hr.1.fclose rfl rfl rfl rfl rfl rfl
+    simp only [actorStep, hpc]
     split
-    · exact Or.inr (preFail_run hP _ hr.1)
-    · cases c <;> simp only
+    · cases c
+      · exact Or.inr (preFail_run hP _ (hr.1.congr rfl rfl rfl rfl rfl rfl))
+      · exact Or.inr (preFail_run hP _ (hr.1.congr rfl rfl rfl rfl rfl rfl))
+      · exact Or.inr (preFail_run hP _ (hr.1.fclose rfl rfl rfl rfl rfl rfl))
+      · exact Or.inr (preFail_run hP _ (hr.1.congr rfl rfl rfl rfl rfl rfl))
+      · exact Or.inr (preFail_run hP _ (hr.1.congr rfl rfl rfl rfl rfl rfl))
+    · have hrest : ∀ c', c = c' → c' ≠ .fclose → a.fopen = true → hasFclose rest = true := by
+        intro c' e hne hfo
+        rcases hfc hfo with h1 | h1
+        · rw [e] at h1; exact absurd h1 hne
+        · exact h1
+      cases c <;> simp only
       · split
-        · exact Or.inr (preFail_run hP _ hr.1)
-        · exact Or.inr (enterClose_run _ hr.1 hpk.1 hpk.2)
-      · exact Or.inr (enterClose_run _ hr.1 hpk.1 hpk.2)
-      · exact Or.inr (enterClose_run _ (a := { a with fopen := false })
-          ⟨hr.1.opened, hr.1.owns_eq, fun h1 => by simp at h1,
-           fun c hc => ⟨(hr.1.committed c hc).1, rfl⟩⟩ hpk.1 (fun h1 => by simp at h1))
+        · exact Or.inr (preFail_run hP _ (hr.1.congr rfl rfl rfl rfl rfl rfl))
+        · exact Or.inr (enterClose_run _ (hr.1.congr rfl rfl rfl rfl rfl rfl) ho
+            (hrest _ rfl (by simp)))
+      · exact Or.inr (enterClose_run _ (hr.1.congr rfl rfl rfl rfl rfl rfl) ho
+          (hrest _ rfl (by simp)))
+      · exact Or.inr (enterClose_run _ (hr.1.fclose rfl rfl rfl rfl rfl rfl) ho
+          (fun h1 => by simp at h1))
       · split
-        · exact Or.inr (enterClose_run _ hr.1 hpk.1 hpk.2)
-        · exact Or.inr (preFail_run hP _ hr.1)
+        · exact Or.inr (enterClose_run _ (hr.1.congr rfl rfl rfl rfl rfl rfl) ho
+            (hrest _ rfl (by simp)))
+        · exact Or.inr (preFail_run hP _ (hr.1.congr rfl rfl rfl rfl rfl rfl))
       · split
-        · exact Or.inr (enterClose_run _ hr.1 hpk.1 hpk.2)
-        · exact Or.inr (preFail_run hP _ hr.1)
-  · -- replace
-    rename_i hpc
-    have hr := h.run_of_pc (by simp [hpc]) (by simp [hpc])
-    have hpk : a.owns = true ∧ a.fopen = false := by
-      have := hr.2.1; unfold PcOk at this; rw [hpc] at this; exact this
+        · exact Or.inr (enterClose_run _ (hr.1.congr rfl rfl rfl rfl rfl rfl) ho
+            (hrest _ rfl (by simp)))
+        · exact Or.inr (preFail_run hP _ (hr.1.congr rfl rfl rfl rfl rfl rfl))
+  | replace =>
+    obtain ⟨hr, ho, hfo⟩ := h.at_closed_file (Or.inl hpc)
+    simp only [actorStep, hpc]
     split
     · split
-      · exact Or.inr (abortInClose_run hP _ hr.1)
-      · exact Or.inr (raise_run hP _ hr.1)
+      · exact Or.inr (abortInClose_run hP _ (hr.1.congr rfl rfl rfl rfl rfl rfl))
+      · exact Or.inr (raise_run hP _ (hr.1.congr rfl rfl rfl rfl rfl rfl))
     · split
       · split
-        · exact Or.inr (abortInClose_run hP _ hr.1)
-        · exact Or.inr (raise_run hP _ hr.1)
-      · have hc1 : Core { a with owns := false, committed := some a.written,
-                                 closed := a.closed || P.markClosedOnReplace } :=
-          ⟨hr.1.opened, by simp [hP.mark], fun h1 => by simp [hpk.2] at h1,
-           fun c hc => by simp at hc; exact ⟨hc.symm, hpk.2⟩⟩
+        · exact Or.inr (abortInClose_run hP _ (hr.1.congr rfl rfl rfl rfl rfl rfl))
+        · exact Or.inr (raise_run hP _ (hr.1.congr rfl rfl rfl rfl rfl rfl))
+      · have hc1 : ∀ pc', Core
+            { a with pc := pc', owns := false, committed := some a.written,
+                     closed := a.closed || P.markClosedOnReplace } := fun pc' =>
+          ⟨hr.1.opened, by simp [hP.mark], fun h1 => by simp [hfo] at h1,
+           fun c hc => by simp at hc; exact ⟨hc.symm, hfo⟩⟩
         simp only
         split
-        · exact Or.inr (abortInClose_run hP _ hc1)
-        · exact Or.inr (settle_run hP _ hc1)
-  · -- rmClose
-    rename_i pending hpc
-    have hr := h.run_of_pc (by simp [hpc]) (by simp [hpc])
-    have hpk : a.owns = true ∧ a.fopen = false := by
-      have := hr.2.1; unfold PcOk at this; rw [hpc] at this; exact this
+        · exact Or.inr (abortInClose_run hP _ (hc1 _))
+        · exact Or.inr (settle_run hP _ (hc1 _))
+  | fcClose pending =>
+    obtain ⟨hr, ho⟩ := h.at_fc (Or.inl ⟨_, hpc⟩)
+    simp only [actorStep, hpc]
     split
-    · exact Or.inr (raise_run hP _ (a := { a with rmFailed := true })
-        ⟨hr.1.opened, hr.1.owns_eq, hr.1.fopen_owns, hr.1.committed⟩)
-    · exact Or.inr (afterClose_run hP _ (a := { a with owns := false, closed := true })
-        ⟨hr.1.opened, rfl, fun h1 => by simp [hpk.2] at h1, hr.1.committed⟩)
-  · -- rmAbort
-    rename_i hpc
-    have hr := h.run_of_pc (by simp [hpc]) (by simp [hpc])
-    have hpk : a.owns = true ∧ a.fopen = false := by
-      have := hr.2.1; unfold PcOk at this; rw [hpc] at this; exact this
+    · split
+      · exact Or.inr (unlinkInClose_run hP _ (hr.1.fclose rfl rfl rfl rfl rfl rfl) ho rfl)
+      · exact Or.inr (raise_run hP _ (hr.1.fclose rfl rfl rfl rfl rfl rfl))
+    · exact Or.inr (unlinkInClose_run hP _ (hr.1.fclose rfl rfl rfl rfl rfl rfl) ho rfl)
+  | rmClose pending =>
+    obtain ⟨hr, ho, hfo⟩ := h.at_closed_file (Or.inr (Or.inl ⟨_, hpc⟩))
+    simp only [actorStep, hpc]
     split
-    · exact Or.inr ⟨⟨hr.1.opened, hr.1.owns_eq, hr.1.fopen_owns, hr.1.committed⟩, trivial, by simp⟩
-    · exact Or.inr (settle_run hP _ (a := { a with owns := false, closed := true })
-        ⟨hr.1.opened, rfl, fun h1 => by simp [hpk.2] at h1, hr.1.committed⟩)
-
+    · exact Or.inr (raise_run hP _ (hr.1.congr rfl rfl rfl rfl rfl rfl))
+    · exact Or.inr (afterClose_run hP _
+        ⟨hr.1.opened, rfl, fun h1 => by simp [hfo] at h1, hr.1.committed⟩)
+  | fcAbort =>
+    obtain ⟨hr, ho⟩ := h.at_fc (Or.inr hpc)
+    simp only [actorStep, hpc]
+    split
+    · split
+      · exact Or.inr (unlinkInAbort_run hP (hr.1.fclose rfl rfl rfl rfl rfl rfl) ho rfl)
+      · exact Or.inr ⟨hr.1.fclose rfl rfl rfl rfl rfl rfl, trivial, by simp⟩
+    · exact Or.inr (unlinkInAbort_run hP (hr.1.fclose rfl rfl rfl rfl rfl rfl) ho rfl)
+  | rmAbort =>
+    obtain ⟨hr, ho, hfo⟩ := h.at_closed_file (Or.inr (Or.inr hpc))
+    simp only [actorStep, hpc]
+    split
+    · exact Or.inr ⟨hr.1.congr rfl rfl rfl rfl rfl rfl, trivial, by simp⟩
+    · exact Or.inr (settle_run hP _
+        ⟨hr.1.opened, rfl, fun h1 => by simp [hfo] at h1, hr.1.committed⟩)
 
 /-! ## projections of the helpers (simp lemmas) -/
 
@@ -352,6 +436,7 @@ theorem actorStep_LInv {P : Program} (hP : WB P) {a : Actor} (lt f : Bool) (h : 
 @[simp] theorem enterClose_written (a : Actor) (l : List (PreCall × Bool)) : (enterClose a l).written = a.written := (enterClose_ghost a l).written
 @[simp] theorem enterClose_committed (a : Actor) (l : List (PreCall × Bool)) : (enterClose a l).committed = a.committed := (enterClose_ghost a l).committed
 @[simp] theorem enterClose_rmFailed (a : Actor) (l : List (PreCall × Bool)) : (enterClose a l).rmFailed = a.rmFailed := (enterClose_ghost a l).rmFailed
+@[simp] theorem enterClose_fcFailed (a : Actor) (l : List (PreCall × Bool)) : (enterClose a l).fcFailed = a.fcFailed := (enterClose_ghost a l).fcFailed
 @[simp] theorem enterClose_hW (a : Actor) (l : List (PreCall × Bool)) : (enterClose a l).hW = a.hW := (enterClose_ghost a l).hW
 @[simp] theorem enterClose_hC (a : Actor) (l : List (PreCall × Bool)) : (enterClose a l).hC = a.hC := (enterClose_ghost a l).hC
 @[simp] theorem settle_owns (P : Program) (a : Actor) (l : List Op) : (settle P a l).owns = a.owns := (settle_ghost P a l).owns
@@ -359,6 +444,7 @@ theorem actorStep_LInv {P : Program} (hP : WB P) {a : Actor} (lt f : Bool) (h : 
 @[simp] theorem settle_written (P : Program) (a : Actor) (l : List Op) : (settle P a l).written = a.written := (settle_ghost P a l).written
 @[simp] theorem settle_committed (P : Program) (a : Actor) (l : List Op) : (settle P a l).committed = a.committed := (settle_ghost P a l).committed
 @[simp] theorem settle_rmFailed (P : Program) (a : Actor) (l : List Op) : (settle P a l).rmFailed = a.rmFailed := (settle_ghost P a l).rmFailed
+@[simp] theorem settle_fcFailed (P : Program) (a : Actor) (l : List Op) : (settle P a l).fcFailed = a.fcFailed := (settle_ghost P a l).fcFailed
 @[simp] theorem settle_hW (P : Program) (a : Actor) (l : List Op) : (settle P a l).hW = a.hW := (settle_ghost P a l).hW
 @[simp] theorem settle_hC (P : Program) (a : Actor) (l : List Op) : (settle P a l).hC = a.hC := (settle_ghost P a l).hC
 @[simp] theorem raise_owns (P : Program) (a : Actor) (l : List Op) : (raise P a l).owns = a.owns := (raise_ghost P a l).owns
@@ -366,6 +452,7 @@ theorem actorStep_LInv {P : Program} (hP : WB P) {a : Actor} (lt f : Bool) (h : 
 @[simp] theorem raise_written (P : Program) (a : Actor) (l : List Op) : (raise P a l).written = a.written := (raise_ghost P a l).written
 @[simp] theorem raise_committed (P : Program) (a : Actor) (l : List Op) : (raise P a l).committed = a.committed := (raise_ghost P a l).committed
 @[simp] theorem raise_rmFailed (P : Program) (a : Actor) (l : List Op) : (raise P a l).rmFailed = a.rmFailed := (raise_ghost P a l).rmFailed
+@[simp] theorem raise_fcFailed (P : Program) (a : Actor) (l : List Op) : (raise P a l).fcFailed = a.fcFailed := (raise_ghost P a l).fcFailed
 @[simp] theorem raise_hW (P : Program) (a : Actor) (l : List Op) : (raise P a l).hW = a.hW := (raise_ghost P a l).hW
 @[simp] theorem raise_hC (P : Program) (a : Actor) (l : List Op) : (raise P a l).hC = a.hC := (raise_ghost P a l).hC
 @[simp] theorem afterClose_owns (P : Program) (a : Actor) (p : Bool) : (afterClose P a p).owns = a.owns := (afterClose_ghost P a p).owns
@@ -373,20 +460,39 @@ theorem actorStep_LInv {P : Program} (hP : WB P) {a : Actor} (lt f : Bool) (h : 
 @[simp] theorem afterClose_written (P : Program) (a : Actor) (p : Bool) : (afterClose P a p).written = a.written := (afterClose_ghost P a p).written
 @[simp] theorem afterClose_committed (P : Program) (a : Actor) (p : Bool) : (afterClose P a p).committed = a.committed := (afterClose_ghost P a p).committed
 @[simp] theorem afterClose_rmFailed (P : Program) (a : Actor) (p : Bool) : (afterClose P a p).rmFailed = a.rmFailed := (afterClose_ghost P a p).rmFailed
+@[simp] theorem afterClose_fcFailed (P : Program) (a : Actor) (p : Bool) : (afterClose P a p).fcFailed = a.fcFailed := (afterClose_ghost P a p).fcFailed
 @[simp] theorem afterClose_hW (P : Program) (a : Actor) (p : Bool) : (afterClose P a p).hW = a.hW := (afterClose_ghost P a p).hW
 @[simp] theorem afterClose_hC (P : Program) (a : Actor) (p : Bool) : (afterClose P a p).hC = a.hC := (afterClose_ghost P a p).hC
+@[simp] theorem unlinkInClose_owns (P : Program) (a : Actor) (p : Bool) : (unlinkInClose P a p).owns = a.owns := (unlinkInClose_ghost P a p).owns
+@[simp] theorem unlinkInClose_opened (P : Program) (a : Actor) (p : Bool) : (unlinkInClose P a p).opened = a.opened := (unlinkInClose_ghost P a p).opened
+@[simp] theorem unlinkInClose_written (P : Program) (a : Actor) (p : Bool) : (unlinkInClose P a p).written = a.written := (unlinkInClose_ghost P a p).written
+@[simp] theorem unlinkInClose_committed (P : Program) (a : Actor) (p : Bool) : (unlinkInClose P a p).committed = a.committed := (unlinkInClose_ghost P a p).committed
+@[simp] theorem unlinkInClose_rmFailed (P : Program) (a : Actor) (p : Bool) : (unlinkInClose P a p).rmFailed = a.rmFailed := (unlinkInClose_ghost P a p).rmFailed
+@[simp] theorem unlinkInClose_fcFailed (P : Program) (a : Actor) (p : Bool) : (unlinkInClose P a p).fcFailed = a.fcFailed := (unlinkInClose_ghost P a p).fcFailed
+@[simp] theorem unlinkInClose_hW (P : Program) (a : Actor) (p : Bool) : (unlinkInClose P a p).hW = a.hW := (unlinkInClose_ghost P a p).hW
+@[simp] theorem unlinkInClose_hC (P : Program) (a : Actor) (p : Bool) : (unlinkInClose P a p).hC = a.hC := (unlinkInClose_ghost P a p).hC
 @[simp] theorem abortInClose_owns (P : Program) (a : Actor) (p : Bool) : (abortInClose P a p).owns = a.owns := (abortInClose_ghost P a p).owns
 @[simp] theorem abortInClose_opened (P : Program) (a : Actor) (p : Bool) : (abortInClose P a p).opened = a.opened := (abortInClose_ghost P a p).opened
 @[simp] theorem abortInClose_written (P : Program) (a : Actor) (p : Bool) : (abortInClose P a p).written = a.written := (abortInClose_ghost P a p).written
 @[simp] theorem abortInClose_committed (P : Program) (a : Actor) (p : Bool) : (abortInClose P a p).committed = a.committed := (abortInClose_ghost P a p).committed
 @[simp] theorem abortInClose_rmFailed (P : Program) (a : Actor) (p : Bool) : (abortInClose P a p).rmFailed = a.rmFailed := (abortInClose_ghost P a p).rmFailed
+@[simp] theorem abortInClose_fcFailed (P : Program) (a : Actor) (p : Bool) : (abortInClose P a p).fcFailed = a.fcFailed := (abortInClose_ghost P a p).fcFailed
 @[simp] theorem abortInClose_hW (P : Program) (a : Actor) (p : Bool) : (abortInClose P a p).hW = a.hW := (abortInClose_ghost P a p).hW
 @[simp] theorem abortInClose_hC (P : Program) (a : Actor) (p : Bool) : (abortInClose P a p).hC = a.hC := (abortInClose_ghost P a p).hC
+@[simp] theorem unlinkInAbort_owns (P : Program) (a : Actor) : (unlinkInAbort P a).owns = a.owns := (unlinkInAbort_ghost P a).owns
+@[simp] theorem unlinkInAbort_opened (P : Program) (a : Actor) : (unlinkInAbort P a).opened = a.opened := (unlinkInAbort_ghost P a).opened
+@[simp] theorem unlinkInAbort_written (P : Program) (a : Actor) : (unlinkInAbort P a).written = a.written := (unlinkInAbort_ghost P a).written
+@[simp] theorem unlinkInAbort_committed (P : Program) (a : Actor) : (unlinkInAbort P a).committed = a.committed := (unlinkInAbort_ghost P a).committed
+@[simp] theorem unlinkInAbort_rmFailed (P : Program) (a : Actor) : (unlinkInAbort P a).rmFailed = a.rmFailed := (unlinkInAbort_ghost P a).rmFailed
+@[simp] theorem unlinkInAbort_fcFailed (P : Program) (a : Actor) : (unlinkInAbort P a).fcFailed = a.fcFailed := (unlinkInAbort_ghost P a).fcFailed
+@[simp] theorem unlinkInAbort_hW (P : Program) (a : Actor) : (unlinkInAbort P a).hW = a.hW := (unlinkInAbort_ghost P a).hW
+@[simp] theorem unlinkInAbort_hC (P : Program) (a : Actor) : (unlinkInAbort P a).hC = a.hC := (unlinkInAbort_ghost P a).hC
 @[simp] theorem preFail_owns (P : Program) (a : Actor) (p : Bool) : (preFail P a p).owns = a.owns := (preFail_ghost P a p).owns
 @[simp] theorem preFail_opened (P : Program) (a : Actor) (p : Bool) : (preFail P a p).opened = a.opened := (preFail_ghost P a p).opened
 @[simp] theorem preFail_written (P : Program) (a : Actor) (p : Bool) : (preFail P a p).written = a.written := (preFail_ghost P a p).written
 @[simp] theorem preFail_committed (P : Program) (a : Actor) (p : Bool) : (preFail P a p).committed = a.committed := (preFail_ghost P a p).committed
 @[simp] theorem preFail_rmFailed (P : Program) (a : Actor) (p : Bool) : (preFail P a p).rmFailed = a.rmFailed := (preFail_ghost P a p).rmFailed
+@[simp] theorem preFail_fcFailed (P : Program) (a : Actor) (p : Bool) : (preFail P a p).fcFailed = a.fcFailed := (preFail_ghost P a p).fcFailed
 @[simp] theorem preFail_hW (P : Program) (a : Actor) (p : Bool) : (preFail P a p).hW = a.hW := (preFail_ghost P a p).hW
 @[simp] theorem preFail_hC (P : Program) (a : Actor) (p : Bool) : (preFail P a p).hC = a.hC := (preFail_ghost P a p).hC
 
@@ -416,21 +522,18 @@ theorem actorStep_eff {P : Program} (hP : WB P) {a : Actor} (lt f : Bool) (h : L
   | pre c t rest =>
     cases f <;> cases c <;> cases lt <;> cases hfo : a.fopen <;> simp [actorStep, hpc, hfo]
   | replace =>
-    have hr := h.run_of_pc (by simp [hpc]) (by simp [hpc])
-    have hpk : a.owns = true ∧ a.fopen = false := by
-      have := hr.2.1; unfold PcOk at this; rw [hpc] at this; exact this
-    cases f <;> cases lt <;> cases hfa : P.finallyAbort <;> simp [actorStep, hpc, hfa, hpk.1]
+    obtain ⟨_, ho, _⟩ := h.at_closed_file (Or.inl hpc)
+    cases f <;> cases lt <;> cases hfa : P.finallyAbort <;> simp [actorStep, hpc, hfa, ho]
+  | fcClose pending =>
+    cases f <;> cases hx : P.abortCloseInTry <;> simp [actorStep, hpc, hx]
   | rmClose pending =>
-    have hr := h.run_of_pc (by simp [hpc]) (by simp [hpc])
-    have hpk : a.owns = true ∧ a.fopen = false := by
-      have := hr.2.1; unfold PcOk at this; rw [hpc] at this; exact this
-    cases f <;> cases lt <;> simp [actorStep, hpc, hpk.1]
+    obtain ⟨_, ho, _⟩ := h.at_closed_file (Or.inr (Or.inl ⟨_, hpc⟩))
+    cases f <;> cases lt <;> simp [actorStep, hpc, ho]
+  | fcAbort =>
+    cases f <;> cases hx : P.abortCloseInTry <;> simp [actorStep, hpc, hx]
   | rmAbort =>
-    have hr := h.run_of_pc (by simp [hpc]) (by simp [hpc])
-    have hpk : a.owns = true ∧ a.fopen = false := by
-      have := hr.2.1; unfold PcOk at this; rw [hpc] at this; exact this
-    cases f <;> cases lt <;> simp [actorStep, hpc, hpk.1]
-
+    obtain ⟨_, ho, _⟩ := h.at_closed_file (Or.inr (Or.inr hpc))
+    cases f <;> cases lt <;> simp [actorStep, hpc, ho]
 
 /-! ## the global invariant -/
 
@@ -610,33 +713,24 @@ theorem enterClose_shape (a : Actor) (l : List (PreCall × Bool)) :
   | nil => exact ⟨Or.inl rfl, rfl, rfl, rfl⟩
   | cons p rest ih =>
     obtain ⟨c, t⟩ := p
+    have key : ∀ (b : Bool), enterClose a ((c, t) :: rest) =
+        (if b then { a with pc := .pre c t rest } else enterClose a rest) →
+        ((enterClose a ((c, t) :: rest)).pc = .replace ∨
+            ∃ c' t' r, (enterClose a ((c, t) :: rest)).pc = .pre c' t' r) ∧
+          (enterClose a ((c, t) :: rest)).todo = a.todo ∧
+          (enterClose a ((c, t) :: rest)).inHandler = a.inHandler ∧
+          (enterClose a ((c, t) :: rest)).closed = a.closed := by
+      intro b e
+      rw [e]
+      cases b
+      · exact ih a
+      · exact ⟨Or.inr ⟨_, _, _, rfl⟩, rfl, rfl, rfl⟩
     cases c with
-    | flush => exact ⟨Or.inr ⟨_, _, _, rfl⟩, rfl, rfl, rfl⟩
-    | fclose => exact ih { a with fopen := false }
-    | fsync =>
-      by_cases hf : a.fsyncOn = true
-      · have e : enterClose a ((.fsync, t) :: rest) = { a with pc := .pre .fsync t rest } := by
-          simp [enterClose, hf]
-        rw [e]; exact ⟨Or.inr ⟨_, _, _, rfl⟩, rfl, rfl, rfl⟩
-      · have e : enterClose a ((.fsync, t) :: rest) = enterClose a rest := by
-          simp [enterClose, hf]
-        rw [e]; exact ih a
-    | stat =>
-      by_cases hf : a.permOn = true
-      · have e : enterClose a ((.stat, t) :: rest) = { a with pc := .pre .stat t rest } := by
-          simp [enterClose, hf]
-        rw [e]; exact ⟨Or.inr ⟨_, _, _, rfl⟩, rfl, rfl, rfl⟩
-      · have e : enterClose a ((.stat, t) :: rest) = enterClose a rest := by
-          simp [enterClose, hf]
-        rw [e]; exact ih a
-    | chmod =>
-      by_cases hf : a.permOn = true
-      · have e : enterClose a ((.chmod, t) :: rest) = { a with pc := .pre .chmod t rest } := by
-          simp [enterClose, hf]
-        rw [e]; exact ⟨Or.inr ⟨_, _, _, rfl⟩, rfl, rfl, rfl⟩
-      · have e : enterClose a ((.chmod, t) :: rest) = enterClose a rest := by
-          simp [enterClose, hf]
-        rw [e]; exact ih a
+    | flush => exact key true rfl
+    | fsync => exact key a.fsyncOn (by simp [enterClose])
+    | fclose => exact key a.fopen (by simp [enterClose])
+    | stat => exact key a.permOn (by simp [enterClose])
+    | chmod => exact key a.permOn (by simp [enterClose])
 
 theorem settle_withBody_cons (P : Program) (a : Actor) (d : Bytes) (post : List Bytes) :
     settle P a (withBody (d :: post)) = { a with pc := .wr d, todo := withBody post } := by
@@ -663,14 +757,8 @@ theorem enterClose_preInTry (a : Actor) (l : List (PreCall × Bool))
     obtain ⟨ht, hr⟩ := hl
     cases c <;> simp only [enterClose]
     · exact ⟨ht, hr⟩
-    · split
-      · exact ⟨ht, hr⟩
-      · exact ih a hr
-    · exact ih _ hr
-    · split
-      · exact ⟨ht, hr⟩
-      · exact ih a hr
-    · split
+    all_goals
+      split
       · exact ⟨ht, hr⟩
       · exact ih a hr
 
@@ -688,7 +776,9 @@ theorem settle_preInTry (P : Program) (hall : P.closePre.all (fun p => p.2) = tr
       · exact ih a
       · split
         · simp [PreInTry]
-        · exact ih _
+        · split
+          · simp [PreInTry]
+          · exact ih _
 
 theorem raise_preInTry (P : Program) (hall : P.closePre.all (fun p => p.2) = true) (a : Actor)
     (l : List Op) : PreInTry (raise P a l) := by
@@ -702,13 +792,25 @@ theorem afterClose_preInTry (P : Program) (hall : P.closePre.all (fun p => p.2) 
   · exact raise_preInTry P hall _ _
   · exact settle_preInTry P hall _ _
 
+theorem unlinkInClose_preInTry (P : Program) (hall : P.closePre.all (fun p => p.2) = true)
+    (a : Actor) (p : Bool) : PreInTry (unlinkInClose P a p) := by
+  unfold unlinkInClose; split
+  · simp [PreInTry]
+  · exact afterClose_preInTry P hall _ _
+
 theorem abortInClose_preInTry (P : Program) (hall : P.closePre.all (fun p => p.2) = true)
     (a : Actor) (p : Bool) : PreInTry (abortInClose P a p) := by
   unfold abortInClose; split
   · exact afterClose_preInTry P hall _ _
   · split
     · simp [PreInTry]
-    · exact afterClose_preInTry P hall _ _
+    · exact unlinkInClose_preInTry P hall _ _
+
+theorem unlinkInAbort_preInTry (P : Program) (hall : P.closePre.all (fun p => p.2) = true)
+    (a : Actor) : PreInTry (unlinkInAbort P a) := by
+  unfold unlinkInAbort; split
+  · simp [PreInTry]
+  · exact settle_preInTry P hall _ _
 
 theorem preFail_preInTry (P : Program) (hall : P.closePre.all (fun p => p.2) = true) (a : Actor)
     (t : Bool) : PreInTry (preFail P a t) := by
@@ -766,11 +868,25 @@ theorem actorStep_preInTry (P : Program) (hall : P.closePre.all (fun p => p.2) =
         split
         · exact abortInClose_preInTry P hall _ _
         · exact settle_preInTry P hall _ _
+  | fcClose p =>
+    simp only [actorStep, hpc]
+    split
+    · split
+      · exact unlinkInClose_preInTry P hall _ _
+      · exact raise_preInTry P hall _ _
+    · exact unlinkInClose_preInTry P hall _ _
   | rmClose p =>
     simp only [actorStep, hpc]
     split
     · exact raise_preInTry P hall _ _
     · exact afterClose_preInTry P hall _ _
+  | fcAbort =>
+    simp only [actorStep, hpc]
+    split
+    · split
+      · exact unlinkInAbort_preInTry P hall _
+      · simp [PreInTry]
+    · exact unlinkInAbort_preInTry P hall _
   | rmAbort =>
     simp only [actorStep, hpc]
     split
@@ -788,11 +904,12 @@ inductive Phase (G : Prop) (ds : List Bytes) (a : Actor) : Prop where
       a.committed = none → a.closed = false → Phase G ds a
   | closing : (a.pc = .replace ∨ ∃ c t r, a.pc = .pre c t r) → a.inHandler = false →
       a.written = ds.flatten → a.todo = [] → a.committed = none → Phase G ds a
-  | failedRm : a.pc = .rmClose true → a.inHandler = false → a.todo = [] → a.committed = none →
-      Phase G ds a
+  | failedRm : (a.pc = .rmClose true ∨ a.pc = .fcClose true) → a.inHandler = false →
+      a.todo = [] → a.committed = none → Phase G ds a
   | handler : a.inHandler = true → a.todo = [] → a.committed = none →
-      (a.pc = .rmAbort ∨
-        (a.pc = .done ∧ ((a.hC = [.abort] ∨ G) → a.closed = true ∨ a.rmFailed = true))) →
+      (a.pc = .rmAbort ∨ a.pc = .fcAbort ∨
+        (a.pc = .done ∧ ((a.hC = [.abort] ∨ G) →
+          a.closed = true ∨ a.rmFailed = true ∨ a.fcFailed = true))) →
       Phase G ds a
   | finished : a.pc = .done → a.inHandler = false → a.todo = [] →
       (a.committed = none ∨ a.committed = some ds.flatten) →
@@ -805,14 +922,14 @@ def WithCfg (a : Actor) : Prop := a.hW = [.abort] ∧ (a.hC = [] ∨ a.hC = [.ab
 theorem raise_handler {P : Program} (hP : WB P) (G : Prop) (ds : List Bytes) {a : Actor}
     {h : List Op} (hi : a.inHandler = false) (hh : h = [] ∨ h = [.abort]) (hc : a.committed = none)
     (hhc : h = a.hW ∨ h = a.hC) (hw : a.hW = [.abort])
-    (hg : G → h = [] → a.closed = true ∨ a.rmFailed = true) :
+    (hg : G → h = [] → a.closed = true ∨ a.rmFailed = true ∨ a.fcFailed = true) :
     Phase G ds (raise P a h) := by
   unfold raise
   rw [hi]
   simp only [Bool.false_eq_true, if_false]
   rcases hh with hh | hh
   · subst hh
-    refine Phase.handler rfl rfl hc (Or.inr ⟨rfl, ?_⟩)
+    refine Phase.handler rfl rfl hc (Or.inr (Or.inr ⟨rfl, ?_⟩))
     intro habs
     rcases habs with habs | g
     · rcases hhc with e | e
@@ -823,8 +940,10 @@ theorem raise_handler {P : Program} (hP : WB P) (G : Prop) (ds : List Bytes) {a 
     simp only [settle, hP.guardAbort, hP.abortRemoves, Bool.true_and, if_true]
     split
     · rename_i hcl
-      exact Phase.handler rfl rfl hc (Or.inr ⟨rfl, fun _ => Or.inl hcl⟩)
-    · exact Phase.handler rfl rfl hc (Or.inl rfl)
+      exact Phase.handler rfl rfl hc (Or.inr (Or.inr ⟨rfl, fun _ => Or.inl hcl⟩))
+    · split
+      · exact Phase.handler rfl rfl hc (Or.inr (Or.inl rfl))
+      · exact Phase.handler rfl rfl hc (Or.inl rfl)
 
 theorem phase_enterClose (G : Prop) (ds : List Bytes) {a : Actor} (l : List (PreCall × Bool))
     (hi : a.inHandler = false) (hw : a.written = ds.flatten) (ht : a.todo = [])
@@ -845,14 +964,36 @@ theorem phase_settle_withBody {P : Program} (G : Prop) (ds pre post : List Bytes
     rw [settle_withBody_cons]
     exact Phase.writing pre d post rfl hi hd hw rfl hc hcl
 
-/-- the control-flow invariant of a with-caller is preserved by each of its system calls -/
+/-- abort() inside close() with an exception in flight, lock still held: first the file object (if
+open), then the unlink -/
+theorem phase_abortInClose {P : Program} (hP : WB P) (G : Prop) (ds : List Bytes) {b : Actor}
+    (hcl : b.closed = false) (hi : b.inHandler = false) (ht : b.todo = [])
+    (hc : b.committed = none) : Phase G ds (abortInClose P b true) := by
+  unfold abortInClose
+  simp only [hcl, Bool.and_false, Bool.false_eq_true, if_false]
+  split
+  · exact Phase.failedRm (Or.inr rfl) hi ht hc
+  · unfold unlinkInClose
+    simp only [hP.abortRemoves, if_true]
+    exact Phase.failedRm (Or.inl rfl) hi ht hc
+
+theorem phase_preFail {P : Program} (hP : WB P) (G : Prop) (ds : List Bytes) {b : Actor} (t : Bool)
+    (hcl : b.closed = false) (hi : b.inHandler = false) (ht : b.todo = [])
+    (hc : b.committed = none) (hW : b.hW = [.abort]) (hC : b.hC = [] ∨ b.hC = [.abort])
+    (hpre : G → t = true) : Phase G ds (preFail P b t) := by
+  unfold preFail
+  split
+  · exact phase_abortInClose hP G ds hcl hi ht hc
+  · rename_i hnt
+    exact raise_handler hP G ds hi hC hc (Or.inr rfl) hW (fun g _ => absurd (hpre g) hnt)
+
+/-- the control-flow invariant of a with-caller is preserved by each of its calls -/
 theorem actorStep_Phase {P : Program} (hP : WB P) (G : Prop) (ds : List Bytes) {a : Actor}
     (lt f : Bool) (hl : LInv a) (hcfg : WithCfg a)
     (hG : G → P.finallyAbort = true ∧ PreInTry a) (h : Phase G ds a) :
     Phase G ds (actorStep P a lt f).1 := by
   obtain ⟨hW, hCc⟩ := hcfg
-  have hC' : ∀ x : List Op, x = a.hC → x = [] ∨ x = [.abort] := fun x e => e ▸ hCc
-  have hgW : G → a.hW = [] → a.closed = true ∨ a.rmFailed = true :=
+  have hgW : G → a.hW = [] → a.closed = true ∨ a.rmFailed = true ∨ a.fcFailed = true :=
     fun _ e => by rw [hW] at e; simp at e
   cases h with
   | start hpc hi ht hw hc =>
@@ -887,11 +1028,9 @@ theorem actorStep_Phase {P : Program} (hP : WB P) (G : Prop) (ds : List Bytes) {
       have hfin : Phase G ds
           (if P.finallyAbort = true then abortInClose P a true else raise P a a.hC) := by
         split
-        · unfold abortInClose
-          simp only [hcl, Bool.and_false, Bool.false_eq_true, if_false, hP.abortRemoves, if_true]
-          exact Phase.failedRm rfl hi ht hc
+        · exact phase_abortInClose hP G ds hcl hi ht hc
         · rename_i hnf
-          exact raise_handler hP G ds hi (hC' _ rfl) hc (Or.inr rfl) hW
+          exact raise_handler hP G ds hi hCc hc (Or.inr rfl) hW
             (fun g _ => absurd (hG g).1 hnf)
       split
       · exact hfin
@@ -913,276 +1052,67 @@ theorem actorStep_Phase {P : Program} (hP : WB P) (G : Prop) (ds : List Bytes) {
       have hpre : G → t = true := by
         intro g
         have := (hG g).2; unfold PreInTry at this; rw [hpc] at this; exact this.1
-      have hfail : Phase G ds (preFail P a t) := by
-        unfold preFail
-        split
-        · unfold abortInClose
-          simp only [hcl, Bool.and_false, Bool.false_eq_true, if_false, hP.abortRemoves, if_true]
-          exact Phase.failedRm rfl hi ht hc
-        · rename_i hnt
-          exact raise_handler hP G ds hi (hC' _ rfl) hc (Or.inr rfl) hW
-            (fun g _ => absurd (hpre g) hnt)
       simp only [actorStep, hpc]
       split
-      · exact hfail
+      · cases c <;> exact phase_preFail hP G ds t hcl hi ht hc hW hCc hpre
       · cases c <;> simp only
         · split
-          · exact hfail
+          · exact phase_preFail hP G ds t hcl hi ht hc hW hCc hpre
           · exact phase_enterClose G ds _ hi hw ht hc
         · exact phase_enterClose G ds _ hi hw ht hc
         · exact phase_enterClose G ds _ hi hw ht hc
         · split
           · exact phase_enterClose G ds _ hi hw ht hc
-          · exact hfail
+          · exact phase_preFail hP G ds t hcl hi ht hc hW hCc hpre
         · split
           · exact phase_enterClose G ds _ hi hw ht hc
-          · exact hfail
+          · exact phase_preFail hP G ds t hcl hi ht hc hW hCc hpre
   | failedRm hpc hi ht hc =>
-    simp only [actorStep, hpc]
-    split
-    · exact raise_handler hP G ds hi (hC' _ rfl) hc (Or.inr rfl) hW (fun _ _ => Or.inr rfl)
-    · unfold afterClose
-      simp only [if_true]
-      exact raise_handler hP G ds hi (hC' _ rfl) hc (Or.inr rfl) hW (fun _ _ => Or.inl rfl)
-  | handler hi ht hc hpc =>
-    rcases hpc with hpc | ⟨hpc, hrel⟩
+    rcases hpc with hpc | hpc
     · simp only [actorStep, hpc]
       split
-      · exact Phase.handler hi rfl hc (Or.inr ⟨rfl, fun _ => Or.inr rfl⟩)
-      · rw [ht]
-        exact Phase.handler hi rfl hc (Or.inr ⟨rfl, fun _ => Or.inl rfl⟩)
+      · exact raise_handler hP G ds hi hCc hc (Or.inr rfl) hW (fun _ _ => Or.inr (Or.inl rfl))
+      · unfold afterClose
+        simp only [if_true]
+        exact raise_handler hP G ds hi hCc hc (Or.inr rfl) hW (fun _ _ => Or.inl rfl)
+    · have hul : ∀ b : Actor, b.inHandler = false → b.todo = [] → b.committed = none →
+          Phase G ds (unlinkInClose P b true) := by
+        intro b h1 h2 h3
+        unfold unlinkInClose
+        simp only [hP.abortRemoves, if_true]
+        exact Phase.failedRm (Or.inl rfl) h1 h2 h3
+      simp only [actorStep, hpc]
+      split
+      · split
+        · exact hul _ hi ht hc
+        · exact raise_handler hP G ds hi hCc hc (Or.inr rfl) hW
+            (fun _ _ => Or.inr (Or.inr rfl))
+      · exact hul _ hi ht hc
+  | handler hi ht hc hpc =>
+    rcases hpc with hpc | hpc | ⟨hpc, hrel⟩
     · simp only [actorStep, hpc]
-      exact Phase.handler hi ht hc (Or.inr ⟨hpc, hrel⟩)
+      split
+      · exact Phase.handler hi rfl hc (Or.inr (Or.inr ⟨rfl, fun _ => Or.inr (Or.inl rfl)⟩))
+      · rw [ht]
+        exact Phase.handler hi rfl hc (Or.inr (Or.inr ⟨rfl, fun _ => Or.inl rfl⟩))
+    · have hul : ∀ b : Actor, b.inHandler = true → b.todo = [] → b.committed = none →
+          Phase G ds (unlinkInAbort P b) := by
+        intro b h1 h2 h3
+        unfold unlinkInAbort
+        simp only [hP.abortRemoves, if_true]
+        exact Phase.handler h1 h2 h3 (Or.inl rfl)
+      simp only [actorStep, hpc]
+      split
+      · split
+        · exact hul _ hi rfl hc
+        · exact Phase.handler hi rfl hc
+            (Or.inr (Or.inr ⟨rfl, fun _ => Or.inr (Or.inr rfl)⟩))
+      · exact hul _ hi ht hc
+    · simp only [actorStep, hpc]
+      exact Phase.handler hi ht hc (Or.inr (Or.inr ⟨hpc, hrel⟩))
   | finished hpc hi ht hc hcl =>
     simp only [actorStep, hpc]
     exact Phase.finished hpc hi ht hc hcl
 
-
-/-! ## lifting the with-caller invariant to reachable states; failures -/
-
-@[simp] theorem enterClose_inHandler (a : Actor) (l : List (PreCall × Bool)) :
-    (enterClose a l).inHandler = a.inHandler := (enterClose_shape a l).2.2.1
-
-@[simp] theorem settle_inHandler (P : Program) (b : Actor) (l : List Op) :
-    (settle P b l).inHandler = b.inHandler := by
-  induction l generalizing b with
-  | nil => rfl
-  | cons o rest ih =>
-    cases o <;> simp only [settle]
-    · split
-      · exact ih b
-      · exact (enterClose_shape _ _).2.2.1
-    · split
-      · exact ih b
-      · split
-        · rfl
-        · exact ih _
-
-theorem actorStep_cfg (P : Program) (a : Actor) (lt f : Bool) :
-    (actorStep P a lt f).1.hW = a.hW ∧ (actorStep P a lt f).1.hC = a.hC := by
-  cases hpc : a.pc with
-  | done => simp [actorStep, hpc]
-  | start => cases f <;> cases lt <;> cases hx : P.openExcl <;> simp [actorStep, hpc, hx]
-  | wr d => cases f <;> cases hfo : a.fopen <;> simp [actorStep, hpc, hfo]
-  | pre c t rest =>
-    cases f <;> cases c <;> cases lt <;> cases hfo : a.fopen <;> simp [actorStep, hpc, hfo]
-  | replace => cases f <;> cases lt <;> cases hfa : P.finallyAbort <;> simp [actorStep, hpc, hfa]
-  | rmClose pending => cases f <;> cases lt <;> simp [actorStep, hpc]
-  | rmAbort => cases f <;> cases lt <;> simp [actorStep, hpc]
-
-theorem withCaller_cfg (fs pm : Bool) (ds : List Bytes) (fin : Bool) :
-    WithCfg (withCaller fs pm ds fin) := by
-  refine ⟨by simp [withCaller, Actor.init, Gen.Lock.exitAbortsOnException], ?_⟩
-  cases fin <;> simp [withCaller, Actor.init, Gen.Lock.delAborts]
-
-theorem withCaller_phase (G : Prop) (fs pm : Bool) (ds : List Bytes) (fin : Bool) :
-    Phase G ds (withCaller fs pm ds fin) :=
-  Phase.start rfl rfl rfl rfl rfl
-
-theorem reach_preInTry {P : Program} (hall : P.closePre.all (fun p => p.2) = true) {s0 s : State}
-    (h0 : Initial s0) (h : Reach P s0 s) (i : Nat) : PreInTry (s.actors i) := by
-  induction h with
-  | init =>
-    obtain ⟨f, p, b, hW, hC, e⟩ := h0.fresh i
-    rw [e]; simp [PreInTry, Actor.init]
-  | step s j f _ ih =>
-    by_cases hji : i = j
-    · subst hji; rw [step_actor_self]; exact actorStep_preInTry P hall _ _ ih
-    · rw [step_actor_other _ _ _ hji]; exact ih
-
-/-- everything we know about a with-caller in a reachable state (`G` may only be assumed when the
-program aborts on every failure inside close()) -/
-theorem reach_with {P : Program} (hP : WB P) (G : Prop)
-    (hG : G → P.abortsOnAnyCloseFailure = true) {s0 s : State} (h0 : Initial s0) (i : Nat)
-    {fs pm fin : Bool} {ds : List Bytes} (hi : s0.actors i = withCaller fs pm ds fin)
-    (h : Reach P s0 s) :
-    Phase G ds (s.actors i) ∧ (s.actors i).hW = [.abort] ∧
-      (s.actors i).hC = (withCaller fs pm ds fin).hC := by
-  induction h with
-  | init =>
-    rw [hi]; exact ⟨withCaller_phase _ _ _ _ _, (withCaller_cfg _ _ _ _).1, rfl⟩
-  | step s j f hr ih =>
-    obtain ⟨hph, hw, hc⟩ := ih
-    by_cases hji : i = j
-    · subst hji
-      rw [step_actor_self]
-      have hcfg := actorStep_cfg P (s.actors i) s.fs.lock.isSome f
-      have hwc : WithCfg (s.actors i) := ⟨hw, by rw [hc]; exact (withCaller_cfg _ _ _ _).2⟩
-      have hG' : G → P.finallyAbort = true ∧ PreInTry (s.actors i) := by
-        intro g
-        have := hG g
-        simp only [Program.abortsOnAnyCloseFailure, Bool.and_eq_true] at this
-        exact ⟨this.1, reach_preInTry this.2 h0 hr i⟩
-      exact ⟨actorStep_Phase hP G ds _ _ ((reach_Inv hP h0 hr).actors i) hwc hG' hph,
-        hcfg.1.trans hw, hcfg.2.trans hc⟩
-    · rw [step_actor_other _ _ _ hji]; exact ⟨hph, hw, hc⟩
-
-/-- the call the actor makes at `pc` — the open, a write, a call of close() up to and including
-the rename — did not succeed (injected error, `FileLocked`, `ValueError`, `FileNotFoundError`) -/
-def Out.isFailure (pc : Pc) (o : Out) : Bool :=
-  (match pc with | .start => true | .wr _ => true | .pre _ _ _ => true | .replace => true | _ => false)
-    && (match o with | .injected => true | .valueError => true | .exists => true | .noent => true
-                     | _ => false)
-
-/-- a failure has been registered: the caller is in its exception handler, or close() is on its
-way out with an exception pending, or there never was a handle -/
-def Failed (a : Actor) : Prop :=
-  a.inHandler = true ∨ a.pc = .rmClose true ∨ (a.opened = false ∧ a.pc = .done)
-
-@[simp] theorem raise_inHandler (P : Program) (a : Actor) (l : List Op) :
-    (raise P a l).inHandler = true := by
-  unfold raise
-  split
-  · assumption
-  · simp
-
-@[simp] theorem afterClose_inHandler_of (P : Program) (a : Actor) (p : Bool)
-    (h : a.inHandler = true) : (afterClose P a p).inHandler = true := by
-  unfold afterClose; split <;> simp [h]
-
-@[simp] theorem abortInClose_inHandler_of (P : Program) (a : Actor) (p : Bool)
-    (h : a.inHandler = true) : (abortInClose P a p).inHandler = true := by
-  unfold abortInClose
-  split
-  · exact afterClose_inHandler_of _ _ _ h
-  · split
-    · exact h
-    · exact afterClose_inHandler_of _ _ _ h
-
-@[simp] theorem preFail_inHandler_of (P : Program) (a : Actor) (t : Bool)
-    (h : a.inHandler = true) : (preFail P a t).inHandler = true := by
-  unfold preFail; split
-  · exact abortInClose_inHandler_of _ _ _ h
-  · simp
-
-theorem Phase.committed_none_of_failed {G : Prop} {ds : List Bytes} {a : Actor} (hl : LInv a)
-    (h : Phase G ds a) (hf : Failed a) : a.committed = none := by
-  cases h with
-  | start _ _ _ _ hc => exact hc
-  | writing _ _ _ _ _ _ _ _ hc _ => exact hc
-  | closing _ _ _ _ hc => exact hc
-  | failedRm _ _ _ hc => exact hc
-  | handler _ _ hc _ => exact hc
-  | finished hpc hi _ _ _ =>
-    rcases hf with hf | hf | ⟨hf, _⟩
-    · rw [hi] at hf; simp at hf
-    · rw [hpc] at hf; simp at hf
-    · rcases hl with hn | hr
-      · exact hn.2.2.2.2.1
-      · rw [hr.1.opened] at hf; simp at hf
-
-/-- once registered, a failure stays registered -/
-theorem actorStep_Failed {P : Program} {a : Actor} (lt f : Bool) (hf : Failed a) :
-    Failed (actorStep P a lt f).1 := by
-  rcases hf with hf | hf | ⟨hf1, hf2⟩
-  · -- in the handler: `inHandler` is never reset
-    left
-    cases hpc : a.pc with
-    | done => simp [actorStep, hpc, hf]
-    | start => cases f <;> cases lt <;> cases hx : P.openExcl <;> simp [actorStep, hpc, hf, hx]
-    | wr d => cases f <;> cases hfo : a.fopen <;> simp [actorStep, hpc, hfo, hf]
-    | pre c t rest =>
-      cases f <;> cases c <;> cases lt <;> cases hfo : a.fopen <;> simp [actorStep, hpc, hfo, hf]
-    | replace =>
-      cases f <;> cases lt <;> cases hfa : P.finallyAbort <;> simp [actorStep, hpc, hfa, hf]
-    | rmClose pending => cases f <;> cases lt <;> simp [actorStep, hpc, hf]
-    | rmAbort => cases f <;> cases lt <;> simp [actorStep, hpc, hf]
-  · -- close() leaving with a pending exception: its unlink, then the exception reaches the caller
-    left
-    cases f <;> cases lt <;> simp [actorStep, hf, afterClose]
-  · right; right
-    simp [actorStep, hf2, hf1]
-
-
-/-- a failing call registers as a failure -/
-theorem actorStep_registers {P : Program} {a : Actor} (lt f : Bool) (hl : LInv a)
-    (h : Out.isFailure a.pc (actorStep P a lt f).2.2 = true) : Failed (actorStep P a lt f).1 := by
-  cases hpc : a.pc with
-  | done => simp [Out.isFailure, hpc] at h
-  | rmClose p => simp [Out.isFailure, hpc] at h
-  | rmAbort => simp [Out.isFailure, hpc] at h
-  | start =>
-    have hn := hl.noHandle_of_start hpc
-    right; right
-    revert h
-    cases f <;> cases lt <;> cases hx : P.openExcl <;>
-      simp [actorStep, hpc, hx, Out.isFailure, hn.1]
-  | wr d =>
-    left
-    revert h
-    cases f <;> cases hfo : a.fopen <;> simp [actorStep, hpc, hfo, Out.isFailure]
-  | pre c t rest =>
-    have key : Failed (preFail P a t) := by
-      unfold preFail
-      split
-      · unfold abortInClose
-        split
-        · left; unfold afterClose; simp
-        · split
-          · right; left; rfl
-          · left; unfold afterClose; simp
-      · left; simp
-    revert h
-    cases f <;> cases c <;> cases lt <;> cases hfo : a.fopen <;>
-      simp [actorStep, hpc, hfo, Out.isFailure] <;> exact key
-  | replace =>
-    have key : Failed (if P.finallyAbort = true then abortInClose P a true else raise P a a.hC) := by
-      split
-      · unfold abortInClose
-        split
-        · left; unfold afterClose; simp
-        · split
-          · right; left; rfl
-          · left; unfold afterClose; simp
-      · left; simp
-    revert h
-    cases f <;> cases lt <;> simp [actorStep, hpc, Out.isFailure] <;> exact key
-
-
-theorem Reach.trans {P : Program} {s0 s1 s2 : State} (h1 : Reach P s0 s1) (h2 : Reach P s1 s2) :
-    Reach P s0 s2 := by
-  induction h2 with
-  | init => exact h1
-  | step s i f _ ih => exact Reach.step s i f ih
-
-theorem reach_run (P : Program) (s : State) (sc : Sched) : Reach P s (run P s sc) := by
-  induction sc generalizing s with
-  | nil => exact Reach.init
-  | cons p rest ih =>
-    obtain ⟨i, f⟩ := p
-    exact Reach.trans (Reach.step s i f Reach.init) (ih _)
-
-theorem State.ofList_initial (tgt : Bool) (as : List Actor)
-    (h : ∀ a ∈ as, ∃ fs pm body hW hC, a = Actor.init fs pm body hW hC) :
-    Initial (State.ofList tgt as) := by
-  refine ⟨rfl, ?_, fun i => ?_⟩
-  · cases tgt <;> simp [State.ofList]
-  · simp only [State.ofList]
-    by_cases hi : i < as.length
-    · have : as.getD i (Actor.init false false [] [] []) = as[i] := by simp [List.getD, hi]
-      rw [this]; exact h _ (List.getElem_mem hi)
-    · have : as.getD i (Actor.init false false [] [] []) = Actor.init false false [] [] [] := by
-        simp [List.getD, List.getElem?_eq_none (Nat.le_of_not_lt hi)]
-      rw [this]; exact ⟨_, _, _, _, _, rfl⟩
 
 end Dulwich.Lock
